@@ -52,11 +52,13 @@ type Local struct {
 	Sites       []uint8
 	KeepSites   bool
 	Ref         interface{} // owner (the engine's request record)
+	TimersFired int         // virtual timers armed during this request whose callback ran
 }
 
 // Init resets l for a new request.
 func (l *Local) Init(cancelAt int, cancel func()) {
 	l.Idx, l.CIdx, l.CancelAt, l.CancelledAt, l.Cancel = 0, 0, cancelAt, -1, cancel
+	l.TimersFired = 0
 	l.Sites = l.Sites[:0]
 }
 
@@ -83,7 +85,8 @@ func (l *Local) deliverCancel(site int) {
 }
 
 type msg struct {
-	site int
+	site  int
+	sleep int64 // virtual ticks the task asks to sleep (time.Sleep of the code under test in instrumented builds)
 }
 
 // Task is one simulated caller goroutine.
@@ -97,6 +100,11 @@ type Task struct {
 	goid     int64
 	g        uintptr // identity of the task's goroutine (getg)
 	lastSite int     // driver-owned
+	// timer tasks (virtual time.AfterFunc callbacks of the code under test)
+	timer bool
+	at    int64       // virtual time at which the callback is due
+	rt    *time.Timer // the real, never-firing timer handed to the code under test: carries Stop()
+	owner *Local      // request during which the timer was armed
 }
 
 // SetLocal installs the request-local state used by subsequent yields of t.
@@ -223,7 +231,9 @@ func CurrentLocal() *Local {
 }
 
 // Yield is the one yield point: every hook site and every seam calls it.
-func Yield(site int) {
+func Yield(site int) { yield(site, 0) }
+
+func yield(site int, sleep int64) {
 	t := current()
 	if t == nil {
 		l := getSolo()
@@ -253,7 +263,7 @@ func Yield(site int) {
 		l.step(site)
 	}
 	raceDisable()
-	t.back <- msg{site}
+	t.back <- msg{site, sleep}
 	cmd := <-t.wake
 	raceEnable()
 	if cmd&CmdAbort != 0 {
@@ -371,11 +381,14 @@ type Result struct {
 	BlockedStates    map[string]int // runtime state of the goroutines that were classed blocked outside the scheduler
 	Deadlock         bool
 	Capped           bool
-	Stalls           int // stall faults that fired (the victim reached its stall point while others were still running)
+	Stalls           int   // stall faults that fired (the victim reached its stall point while others were still running)
+	TimersArmed      int   // virtual timers (time.AfterFunc of the code under test) adopted as tasks
+	TimersFired      int   // of which the callback ran when its virtual time had come
+	TimersStopped    int   // of which had been stopped by the code under test before that
 	Sleeps           int   // times a task was put to sleep on the virtual clock
 	ClockJumps       int   // times the virtual clock jumped because every parked task was asleep
 	SleptTicks       int64 // virtual ticks skipped by those jumps
-	StallThaws       int // of which ended because the awaited progress of other tasks happened
+	StallThaws       int   // of which ended because the awaited progress of other tasks happened
 }
 
 const (
@@ -393,10 +406,13 @@ func hmix(h uint64, v uint64) uint64 {
 func Run(cfg Config, bodies []func(t *Task)) *Result {
 	res := &Result{SwitchPairs: map[[2]int16]int{}, SiteHits: map[int]int{}, BlockedStates: map[string]int{}}
 	n := len(bodies)
+	n0 := n // tasks beyond n0 are timer callbacks adopted during the run
 	tasks := make([]*Task, n)
 	done := make(chan struct{}, n)
 	setActive(true)
 	setMulti(false)
+	resetTimers()
+	setVNow(0)
 	for i := range bodies {
 		t := &Task{ID: i, wake: make(chan int), back: make(chan msg)}
 		tasks[i] = t
@@ -417,7 +433,7 @@ func Run(cfg Config, bodies []func(t *Task)) *Result {
 				body(t)
 			}()
 			raceDisable()
-			t.back <- msg{-1}
+			t.back <- msg{site: -1}
 			raceEnable()
 			done <- struct{}{} // visible join edge: the driver may read task-local data afterwards
 		}(t, bodies[i])
@@ -468,7 +484,7 @@ func Run(cfg Config, bodies []func(t *Task)) *Result {
 	live := n
 	last := -1
 	var now int64
-	sleepUntil := make([]int64, n)
+	sleepUntil := make([]int64, n, n+maxTimers)
 	accept := func(t *Task, m msg) bool {
 		res.Steps++
 		res.SiteHits[m.site]++
@@ -511,14 +527,32 @@ func Run(cfg Config, bodies []func(t *Task)) *Result {
 				}
 			}
 		}
-		if cfg.OnYield != nil {
+		if cfg.OnYield != nil && t.ID < n0 {
 			cfg.OnYield(t.ID, m.site, now)
 		}
-		if cfg.Sleep != nil && m.site != -1 {
+		if cfg.Sleep != nil && m.site != -1 && t.ID < n0 {
 			if d := cfg.Sleep(t.ID, m.site, now); d > 0 {
 				sleepUntil[t.ID] = now + d
 				res.Sleeps++
 			}
+		}
+		if m.sleep > 0 && m.site != -1 {
+			sleepUntil[t.ID] = now + m.sleep
+			res.Sleeps++
+		}
+		// timers the step has armed become tasks that sleep until they are due
+		for _, nt := range takePending() {
+			nt.ID = len(tasks)
+			tasks = append(tasks, nt)
+			pr := 0
+			if cfg.Policy == PolPCT {
+				pr = 1 + cfg.Sched.Intn(len(tasks)+8)
+			}
+			prio = append(prio, pr)
+			sleepUntil = append(sleepUntil, nt.at)
+			stallBoundaries = append(stallBoundaries, 0)
+			live++
+			res.TimersArmed++
 		}
 		return true
 	}
@@ -674,9 +708,23 @@ func Run(cfg Config, bodies []func(t *Task)) *Result {
 			cmd := 0
 			if abort {
 				cmd = CmdAbort
-			} else if cfg.WakeCmd != nil {
+			} else if cfg.WakeCmd != nil && t.ID < n0 {
 				cmd = cfg.WakeCmd(t.ID, now)
 			}
+			if t.timer && t.rt != nil {
+				// first release of a timer callback: is it still wanted?
+				if !t.rt.Stop() || abort {
+					cmd = CmdAbort
+					res.TimersStopped++
+				} else {
+					res.TimersFired++
+					if t.owner != nil {
+						noteFired(t.owner)
+					}
+				}
+				t.rt = nil
+			}
+			setVNow(now)
 			setCurrent(t)
 			t.wake <- cmd
 		}
